@@ -65,6 +65,12 @@ def cases(tier, seed):
         for nch, ncb, net in ((0, 0, 0), (1, 0, 0), (0, 1, 1), (1, 2, 2)):
             for rnd in ('text', 'json'):
                 cs.append({'kind': 'combo', 'role': 'server', 'marker': marker, 'cha': rng.sample(cha, nch), 'cbc': rng.sample(cbc, ncb), 'etm': rng.sample(etm, net), 'render': rnd, 'seed': rng.randrange(1 << 30), 'gex2048': True})
+    # names that merely look like the strict-kex marker (another version number, another spelling): they are unknown names, not the marker
+    LOOKALIKES = ['kex-strict-%-v01@openssh.com', 'kex-strict-%-v0@openssh.com', 'kex-strict-%-v000@openssh.com', 'kex-strict-%-v10@openssh.com', 'kex-strict-%@openssh.com', 'KEX-STRICT-%-V00@OPENSSH.COM',
+                  'kex-strict-%-v00@openssh.com.', 'kex-strict-%-v00', 'xkex-strict-%-v00@openssh.com', 'kex-strict-%-v00@openssh.org', 'kex-strict-%-v99@openssh.com', 'kex-strict-v00@openssh.com']
+    for i, la in enumerate(LOOKALIKES):
+        for role in (('server', 'client') if tier == 'thorough' else (['server', 'client'][i % 2],)):
+            cs.append({'kind': 'combo', 'role': role, 'marker': ['none', 'other'][i % 2], 'cha': rng.sample(cha, 1), 'cbc': rng.sample(cbc, 1), 'etm': rng.sample(etm, 1), 'render': ['text', 'json'][(i // 2) % 2], 'seed': rng.randrange(1 << 30), 'lookalike': la})
     # the connection-rate check runs as well (everything else here skips it): its note lands in the same list as the strict-kex advisory
     for marker in ('own', 'none'):
         for rnd in ('text', 'json'):
@@ -169,6 +175,8 @@ def run_case(c):
         kex.append(own)
     if c['marker'] in ('other', 'both'):
         kex.append(other)
+    if c.get('lookalike'):
+        kex.append(c['lookalike'].replace('%', 'c' if client else 's'))
     rng.shuffle(kex)
     fill_enc = rng.sample([n for n in names['enc'] if not is_shape(n)], rng.randint(1, 3))
     fill_mac = rng.sample([n for n in names['mac'] if not is_shape(n)], rng.randint(1, 3))
